@@ -51,13 +51,14 @@ ASSUMPTIONS = ['CPython string hashing is the only effect of PYTHONHASHSEED',
                'recorded as notes, not compared (consumers treat them as sets)',
                'diagnostic texts are not SQL: only the exception type is compared']
 
-# ---- exclusion flags for analysed genuine defects (reported to the coordinator).
-# VERIF_C13_INCLUDE=D2,D3 switches an exclusion off (to re-derive the finding).
-_inc = set(x.strip().upper() for x in os.environ.get('VERIF_C13_INCLUDE', '').split(',')
+# ---- the three analysed genuine defects D2, D2B, D3 were repaired in /repo (fix: commits
+# 458d533, b8852c3, 916a49b); nothing is excluded any more.  VERIF_C13_EXCLUDE=D2,D2B,D3
+# restores an exclusion (only useful to look past a regression of one of them).
+_exc = set(x.strip().upper() for x in os.environ.get('VERIF_C13_EXCLUDE', '').split(',')
            if x.strip())
-EXCLUDE_D2 = 'D2' not in _inc     # statement order of iteration closure follows set order
-EXCLUDE_D2B = 'D2B' not in _inc   # order of >= 2 iterative components follows set order
-EXCLUDE_D3 = 'D3' not in _inc     # parse.TOO_MUCH stays on after an incantation main file
+EXCLUDE_D2 = 'D2' in _exc     # statement order of iteration closure follows set order
+EXCLUDE_D2B = 'D2B' in _exc   # order of >= 2 iterative components follows set order
+EXCLUDE_D3 = 'D3' in _exc     # parse.TOO_MUCH stays on after an incantation main file
 
 # Static cost table (seconds of one golden-predicate compilation, measured once on the
 # pinned tree) used ONLY to balance the corpus over shards and to keep slow files out of
